@@ -4,8 +4,23 @@ under an exclusive lock so that checks started in parallel do not collide."""
 import os, subprocess, fcntl, glob, time, sys, shutil
 
 VERIF = os.path.dirname(os.path.dirname(os.path.abspath(__file__)))
-COQ = os.path.join(VERIF, "coq")
-BUILD = os.path.join(VERIF, "build")
+# Normal mode: the repository under test is /repo.  For evaluating seeded changes without
+# disturbing other work, VERIF_REPO=<worktree> runs the same pipeline against another checkout,
+# with its own build directory, its own copy of the Coq tree (Gen/ is regenerated there) and its
+# own evidence/replay directories under build/alt-*/.
+REPO = os.environ.get("VERIF_REPO", "/repo")
+ALT = REPO != "/repo"
+if ALT:
+    import hashlib as _h
+    BUILD = os.path.join(VERIF, "build", "alt-" + _h.sha1(REPO.encode()).hexdigest()[:8])
+    COQ = os.path.join(BUILD, "coq")
+    HARNESS = os.path.join(BUILD, "harness")
+    OUTDIR = BUILD
+else:
+    BUILD = os.path.join(VERIF, "build")
+    COQ = os.path.join(VERIF, "coq")
+    HARNESS = os.path.join(VERIF, "harness")
+    OUTDIR = VERIF
 GOENV = dict(os.environ, GOFLAGS="-mod=mod", GOPROXY="off", GOSUMDB="off", GOTOOLCHAIN="local")
 COQ_DIRS = ["Base", "Spec", "Model", "Gen", "Proofs", "Properties", "Judge"]
 
@@ -48,10 +63,16 @@ def _build_all(clean, verbose, only=None):
         log.append(m)
         if verbose:
             print(m, flush=True)
+    if ALT:
+        os.makedirs(BUILD, exist_ok=True)
+        sh(["rsync", "-a", "--delete", "--exclude", "Gen/*.v", os.path.join(VERIF, "coq") + "/", COQ + "/"])
+        sh(["rsync", "-a", "--delete", os.path.join(VERIF, "harness") + "/", HARNESS + "/"])
+        gm = open(os.path.join(HARNESS, "go.mod")).read().replace("=> /repo", "=> " + REPO)
+        open(os.path.join(HARNESS, "go.mod"), "w").write(gm)
     # 0. Go workers (one binary per property, so that a handler that no longer compiles against /repo's
     #    working tree only breaks its own property) and translator
-    shutil.copyfile("/repo/go.sum", os.path.join(VERIF, "harness", "go.sum"))
-    wdir = os.path.join(VERIF, "harness", "worker")
+    shutil.copyfile(os.path.join(REPO, "go.sum"), os.path.join(HARNESS, "go.sum"))
+    wdir = os.path.join(HARNESS, "worker")
     allgo = sorted(f for f in os.listdir(wdir) if f.endswith(".go") and not f.endswith("_test.go"))
     import re as _re
     shared = [f for f in allgo if not _re.match(r"c\d\d", f)]
@@ -79,7 +100,7 @@ def _build_all(clean, verbose, only=None):
         if rc != 0:
             st["tools_ok"] = False
         else:
-            rc, out = sh([os.path.join(BUILD, "gotrans"), "-repo", "/repo", "-out", os.path.join(COQ, "Gen")], env=GOENV, timeout=600)
+            rc, out = sh([os.path.join(BUILD, "gotrans"), "-repo", REPO, "-out", os.path.join(COQ, "Gen")], env=GOENV, timeout=600)
             say("gotrans: rc=%d %s" % (rc, out[-3000:]))
             if rc != 0:
                 st["gen_notes"].append(out[-3000:])
